@@ -28,7 +28,7 @@ FLOORS = {
                  'helpers_judged': 30000, 'position:index': 8000, 'position:quantifier-domain': 8000,
                  'fault:unknown-field': 20000, 'fault:index-out-of-range': 12000},
 }
-BUDGET = {'quick': 9000, 'thorough': 160000}
+BUDGET = {'quick': 20000, 'thorough': 160000}
 TIMEOUT = {'quick': 900, 'thorough': 7200}
 
 POSITIONS = ('top', 'index', 'range-bound', 'set-element', 'function-argument', 'quantifier-domain',
